@@ -44,6 +44,8 @@ pub mod miscdiv;
 pub mod snfh;
 #[cfg(feature = "kh")]
 pub mod hcalch;
+#[cfg(feature = "kh")]
+pub mod pivh;
 
 /// (table, should_panic) for the native runner
 #[cfg(not(kani))]
@@ -52,6 +54,6 @@ pub fn all_tables() -> Vec<(&'static [(&'static str, fn(&mut src::Src) -> src::R
     #[cfg(feature = "core")]
     { v.push((bitseq::BITSEQ, false)); v.push((bitseq::BITSEQ_REJECT, true)); v.push((ring::RING, false)); v.push((mono::MONO, false)); v.push((xing::XING, false)); v.push((xing::XING_REJECT, true)); }
     #[cfg(feature = "kh")]
-    { v.push((khgen::KHGEN, false)); v.push((cob::COB, false)); v.push((miscdiv::MISC, false)); v.push((snfh::SNF, false)); v.push((hcalch::HCALC, false)); }
+    { v.push((khgen::KHGEN, false)); v.push((cob::COB, false)); v.push((miscdiv::MISC, false)); v.push((snfh::SNF, false)); v.push((hcalch::HCALC, false)); v.push((pivh::PIV, false)); }
     v
 }
